@@ -41,7 +41,7 @@ var verifVocabQuery = []string{
 }
 
 var verifVocabSoup = []string{
-	"(", ")", "[", "]", "{", "}", "<", ">", ">>", ",", ";", "CASE", "WHEN", "THEN", "END", "AS", "FROM", "UNION", "a", "1", "/*c*/", "SELECT", ".", "-", "a/*c*/b", "-/*c*/-",
+	"(", ")", "[", "]", "{", "}", "<", ">", ">>", ",", ";", "CASE", "WHEN", "THEN", "END", "AS", "FROM", "UNION", "a", "1", "/*c*/", "SELECT", ".", "-", "a/*c*/b", "-/*c*/-", "\ufeff", "\u00a0",
 }
 
 var verifVocabDDL = []string{
